@@ -84,6 +84,7 @@ type c01Tr struct {
 	fields  map[string]c01Field   // squashed selector expression -> field of the record
 	maps    map[string]c01MapKind // kind -> how a map of that kind is read
 	retRecv string                // methods that return their receiver (or nothing): its name ("" otherwise)
+	unkOK   bool                  // an unrecognised boolean operand becomes (unk "<its text>"): recognised but different
 	njoin   int
 }
 
@@ -119,6 +120,8 @@ func c01NewTr(fn string) *c01Tr {
 		types: map[string]string{"nat": "nat", "bool": "bool", "key": "key", "keys": "list key", "kset": "list key",
 			"nats": "list nat", "val": "V", "vals": "list V", "unit": "unit", "oerr": "option N", "kmap": "list (key * key)"}}
 }
+
+func coqStrC01(s string) string { return "\"" + strings.ReplaceAll(s, "\"", "\"\"") + "\"%string" }
 
 func c01Squash(e ast.Expr) string { return strings.Join(strings.Fields(types.ExprString(e)), "") }
 
@@ -277,6 +280,21 @@ func (t *c01Tr) expr(e ast.Expr) (string, string, error) {
 			}
 		}
 	case *ast.BinaryExpr:
+		if t.unkOK && (x.Op == token.LAND || x.Op == token.LOR) {
+			l, err := t.boolExpr(x.X)
+			if err != nil {
+				return "", "", err
+			}
+			r, err := t.boolExpr(x.Y)
+			if err != nil {
+				return "", "", err
+			}
+			op := " && "
+			if x.Op == token.LOR {
+				op = " || "
+			}
+			return "(" + l + op + r + ")", "bool", nil
+		}
 		if (x.Op == token.EQL || x.Op == token.NEQ) && (c01IsNilIdent(x.Y) || c01IsNilIdent(x.X)) {
 			o := x.X
 			if c01IsNilIdent(x.X) {
@@ -355,6 +373,9 @@ func (t *c01Tr) zeroOf(kind string) string {
 
 func (t *c01Tr) boolExpr(e ast.Expr) (string, error) {
 	s, k, err := t.expr(e)
+	if err != nil && t.unkOK {
+		return "(unk " + coqStrC01(c01Squash(e)) + ")", nil
+	}
 	if err != nil {
 		return "", err
 	}
